@@ -68,7 +68,7 @@ MUTANTS = [
      '        coupled.nonlinear_solver.options["maxiter"] = 6\n        coupled.nonlinear_solver.options["atol"] = 1e-7\n        coupled.nonlinear_solver.options["rtol"] = 1e-30\n        coupled.nonlinear_solver.options["iprint"] = 2\n        coupled.nonlinear_solver.options["err_on_non_converge"] = False\n',
      "lower maxiter, no error on non-convergence: result depends on the starting guess"),
     ("m15_disp_transfer_first_mesh_cached", "C12", "transfer/displacement_transfer_group.py", None, None,
-     "placeholder: built dynamically below"),
+     "DisplacementTransfer starts the deformed mesh from the undeformed mesh of its FIRST evaluation (twist/geometry changes of later points ignored)"),
     ("m16_fem_lu_shared_between_instances", "C12", "structures/fem.py",
      '        self._lup = splu(K)\n        outputs["disp_aug"] = self._lup.solve(inputs["forces"])\n',
      '        key = K.shape\n        if FEM.__dict__.get("_lu_by_shape") is None:\n            FEM._lu_by_shape = {}\n        if key not in FEM._lu_by_shape:\n            FEM._lu_by_shape[key] = (splu(K), inputs["local_stiff_transformed"].copy())\n        lu, kref = FEM._lu_by_shape[key]\n        if np.allclose(kref, inputs["local_stiff_transformed"], rtol=1e-3, atol=0.0):\n            self._lup = lu\n        else:\n            self._lup = splu(K)\n            FEM._lu_by_shape[key] = (self._lup, inputs["local_stiff_transformed"].copy())\n        outputs["disp_aug"] = self._lup.solve(inputs["forces"])\n',
@@ -103,9 +103,11 @@ def _apply(root, m):
     elif name == "m15_disp_transfer_first_mesh_cached":
         path = os.path.join(root, "openaerostruct", "transfer", "displacement_transfer.py")
         src = open(path).read()
-        old = '        mesh = inputs["mesh"]\n'
+        old = '        outputs["def_mesh"] = inputs["mesh"].copy()\n'
         assert old in src, "m15 anchor"
-        src = src.replace(old, '        if getattr(self, "_mesh0", None) is None:\n            self._mesh0 = inputs["mesh"].copy()\n        mesh = self._mesh0 if not np.iscomplexobj(inputs["mesh"]) else inputs["mesh"]\n', 1)
+        src = src.replace(old, '        if getattr(self, "_mesh0", None) is None and not np.iscomplexobj(inputs["mesh"]):\n'
+                               '            self._mesh0 = inputs["mesh"].copy()\n'
+                               '        outputs["def_mesh"] = (self._mesh0 if not np.iscomplexobj(inputs["mesh"]) else inputs["mesh"]).copy()\n', 1)
     elif name == "m18_unknown_key_warning_once":
         assert old in src
         src = src.replace(old, new)
